@@ -299,6 +299,15 @@ func verifRun(c *mon.Case) *mon.Result {
 		val, err = Parse(c.File, in, opts...)
 	}()
 	mon.SetLive(nil)
+{{if not .Optimized}}
+	if c.Stats {
+		for _, m := range st.ChoiceAltCnt {
+			for _, n := range m {
+				res.ChoiceEvals += n
+			}
+		}
+	}
+{{end}}
 	res.Val = mon.Canon(val)
 	res.Trace = tr.Events
 	res.StateIDs = tr.StateID
